@@ -58,7 +58,11 @@ def run_case(case):
             r1 = obj(x, 2.0)
             x -= 0.25                       # same array object, now at x0
             r2 = obj(x, 1.0, t=3.0)
+            keep2 = np.array(r2[0] if arg[1] else r2, copy=True)
+            x.flags.writeable = False               # the caller's x is never written to
             r3 = obj(x, -0.5)
+            if not np.array_equal(np.asarray(r2[0] if arg[1] else r2), keep2, equal_nan=True):
+                return ('raise', 'ResultOverwritten: the array returned by the second call was changed by the third call')
             pick = (lambda r: r[0]) if arg[1] else (lambda r: r)
             return ('ok', [np.asarray(pick(r2)).tolist(), np.asarray(pick(r3)).tolist()], arg)
     except Exception as ex:
